@@ -105,8 +105,8 @@ DTYPES = ["uint8", "int8", "uint16", "int16", "uint32", "int32", "float32", "flo
 
 
 def make_config(rng: random.Random):
-    ny = rng.choice([1, 2, 7, 16, 33, 70, 129, 200, rng.randint(1, 200)])
-    nx = rng.choice([1, 2, 3, 4, 5, 16, 40, 100, 150, rng.randint(1, 200)])
+    ny = rng.choice([1, 2, 7, 16, 33, 70, 129, 200, rng.randint(1, 200), rng.randint(257, 600)])
+    nx = rng.choice([1, 2, 3, 4, 5, 16, 40, 100, 150, rng.randint(1, 200), rng.randint(257, 400)])
     layout = rng.choice(["YX", "YX", "SYX", "YXS"])
     ns = 1
     if layout == "SYX":
@@ -459,7 +459,12 @@ CONFIG_WATCHDOG_S = 300
 WRITE_BOUND = 2_000_000
 
 PINNED = [
-    # nodata declared through the CF _FillValue attribute only (C05-9)
+    # more than 16 tiles across and not a multiple of 2**levels: the padded layout has whole tile rows / columns the data does not have (D36)
+    dict(ny=520, nx=100, layout="YX", ns=1, dtype="uint16", chunks=[64, 64], band_chunk=1, nodata=None, blocksize=[16], compression="deflate", predictor=None, spill_sz=None, writes_per_chunk=None, stats=True, bigtiff=True, scheduler="sync", workers=2, order_seed=33, data_seed=33, crs="EPSG:3857"),
+    dict(ny=257, nx=300, layout="SYX", ns=2, dtype="int16", chunks=[64, 64], band_chunk=1, nodata=-9999, blocksize=[16], compression="zstd", predictor=None, spill_sz=4096, writes_per_chunk=2, stats=False, bigtiff=False, scheduler="threads", workers=4, order_seed=34, data_seed=34, crs="EPSG:4326"),
+    dict(ny=300, nx=257, layout="YXS", ns=3, dtype="uint8", chunks=[100, 64], band_chunk=3, nodata=None, blocksize=[16], compression="lzw", predictor=None, spill_sz=None, writes_per_chunk=None, stats=True, bigtiff=True, scheduler="sync", workers=2, order_seed=35, data_seed=35, crs="EPSG:32633"),    # five pyramid levels, a first overview of more than 20 tiles, nothing spilled before the end (C05-10: repartitioned + concatenated bags reach the append step as one-shot iterators)
+    dict(ny=150, nx=140, layout="YX", ns=1, dtype="uint8", chunks=[64, 64], band_chunk=1, nodata=None, blocksize=[16], compression="deflate", predictor=None, spill_sz=0, writes_per_chunk=None, stats=True, bigtiff=True, scheduler="sync", workers=2, order_seed=31, data_seed=31, crs="EPSG:3857"),
+    dict(ny=200, nx=170, layout="YXS", ns=3, dtype="int16", chunks=[32, 32], band_chunk=3, nodata=-9999, blocksize=[16], compression="zstd", predictor=None, spill_sz=0, writes_per_chunk=2, stats=False, bigtiff=False, scheduler="threads", workers=4, order_seed=32, data_seed=32, crs="EPSG:4326"),    # nodata declared through the CF _FillValue attribute only (C05-9)
     dict(ny=70, nx=100, layout="YX", ns=1, dtype="int16", chunks=[32, 32], band_chunk=1, nodata=-9999, blocksize=[32], compression="deflate", predictor=None, spill_sz=None, writes_per_chunk=None, stats=True, bigtiff=True, scheduler="sync", workers=2, order_seed=30, data_seed=30, crs="EPSG:3857", nodata_attr="_FillValue"),    # a save that died half way at the same destination, then the real one: same layout, fixed-size (uncompressed) tiles, parts spilled early (C05-8 / C18-8: part files of equal size kept)
     dict(ny=256, nx=240, layout="YX", ns=1, dtype="uint16", chunks=[64, 64], band_chunk=1, nodata=None, blocksize=[64], compression="none", predictor=None, spill_sz=1024, writes_per_chunk=2, stats=False, bigtiff=True, scheduler="sync", workers=2, order_seed=28, data_seed=28, crs="EPSG:3857", aborted_first=True),
     dict(ny=200, nx=150, layout="SYX", ns=2, dtype="float32", chunks=[64, 64], band_chunk=1, nodata=None, blocksize=[32], compression="none", predictor=None, spill_sz=0, writes_per_chunk=3, stats=True, bigtiff=True, scheduler="threads", workers=4, order_seed=29, data_seed=29, crs="EPSG:4326", aborted_first=True),    # very large magnitudes in every band with statistics on (seeded change C05-7: header room reserved for the statistics text, offsets computed before it is patched in)
@@ -511,7 +516,7 @@ def run(mon: Monitor, tier: str, seed: int, shard: int, nshards: int) -> None:
             for cfg in PINNED:
                 mon.case = {"kind": "cfg", "cfg": cfg}
                 _guarded(mon, cfg, workdir)
-        for _ in range(95 if tier == "quick" else 600):
+        for _ in range(70 if tier == "quick" else 600):
             cfg = make_config(random.Random(rng.getrandbits(48)))
             mon.case = {"kind": "cfg", "cfg": cfg}
             _guarded(mon, cfg, workdir)
